@@ -61,16 +61,33 @@ class Poly:
         return " + ".join(out)
 
 
-def to_poly(t, names, phi_ops=None):
-    """term -> Poly or None.  names: term -> variable name"""
+def to_poly(t, names, phi_ops=None, phi_gate=None, nonzero=frozenset()):
+    """term -> Poly or None.  names: term -> variable name.  phi_gate: the engine's gated merges (only
+    the zero guard `if v == 0.0 { v } else { f(v) }` with f(v) = c * v is read through);
+    nonzero: terms known to differ from 0 on this path"""
     if t in names: return Poly.var(names[t])
     k = t[0]
+    if k == 'phi' and phi_gate is not None:
+        g = phi_gate.get(t)
+        if g is not None and g[0][0] == 'op' and g[0][1] in ('eq', 'ne') and any(x[0] == 'c' and x[1] == 'f64' and x[2] in (0, 1 << 63) for x in (g[0][3], g[0][4])):
+            v = g[0][3] if g[0][4][0] == 'c' else g[0][4]
+            zero_side, other = (g[1], g[2]) if g[0][1] == 'eq' else (g[2], g[1])
+            pv = to_poly(v, names, phi_ops, phi_gate, nonzero)
+            po = to_poly(other, names, phi_ops, phi_gate, nonzero | {v})
+            if pv is not None and po is not None and (zero_side == v or (zero_side[0] == 'c' and zero_side[2] in (0, 1 << 63))):
+                # the two sides agree at v = 0 when the other side is a constant multiple of v
+                for mono, c in pv.d.items():
+                    if c != 0 and mono in po.d:
+                        ratio = po.d[mono] / c
+                        if po == pv * Poly.const(ratio): return po
+                        break
+        return None
     if k == 'c':
         if t[1] == 'f64': return Poly.const(Fraction(f64_from_bits(t[2])))
         if t[1] in INT_TYS: return Poly.const(t[2])
         return None
     if k == 'op':
-        a, b = to_poly(t[3], names, phi_ops), to_poly(t[4], names, phi_ops)
+        a, b = to_poly(t[3], names, phi_ops, phi_gate, nonzero), to_poly(t[4], names, phi_ops, phi_gate, nonzero)
         if a is None or b is None: return None
         if t[1] == 'add': return a + b
         if t[1] == 'sub': return a - b
@@ -78,23 +95,25 @@ def to_poly(t, names, phi_ops=None):
         if t[1] == 'div' and b.is_const() and b.d.get((), 0) != 0: return a * Poly.const(1 / b.d[()])
         return None
     if k == 'un' and t[1] == 'neg':
-        a = to_poly(t[3], names, phi_ops)
+        a = to_poly(t[3], names, phi_ops, phi_gate, nonzero)
         return None if a is None else -a
     if k == 'cast' and t[1] == 'int_to_float':
-        return to_poly(t[3], names, phi_ops)
+        return to_poly(t[3], names, phi_ops, phi_gate, nonzero)
     if k == 'call' and isinstance(t[1], str) and t[1].endswith("::from_bits") and len(t[2]) == 1:
         # from_bits(K + to_bits(P)) with K a multiple of 2^52: the exponent of P is shifted by K >> 52,
         # i.e. P * 2^(K >> 52) (exact in real arithmetic as long as the result stays a normal number)
         x = t[2][0]
         while x[0] == 'cast' and x[1] == 'int_to_int': x = x[3]
         if x[0] == 'call' and isinstance(x[1], str) and x[1].endswith("::to_bits"):
-            return to_poly(x[2][0], names, phi_ops)          # K = 0 folded away
+            return to_poly(x[2][0], names, phi_ops, phi_gate, nonzero)          # K = 0 folded away
         if x[0] == 'op' and x[1] == 'add':
             for kc, other in ((x[3], x[4]), (x[4], x[3])):
                 while other[0] == 'cast' and other[1] == 'int_to_int': other = other[3]
                 if kc[0] == 'c' and kc[1] in INT_TYS and kc[2] % (1 << 52) == 0 and other[0] == 'call' and isinstance(other[1], str) and other[1].endswith("::to_bits"):
-                    inner = to_poly(other[2][0], names, phi_ops)
+                    inner = to_poly(other[2][0], names, phi_ops, phi_gate, nonzero)
                     if inner is None: return None
+                    if kc[2] < 0 and other[2][0] not in nonzero:
+                        return None          # bits(0.0) + (k << 52) with k < 0 are the bits of -inf: not v * 2^k at v = 0
                     sh = kc[2] >> 52 if kc[2] >= 0 else -((-kc[2]) >> 52)
                     return inner * Poly.const(Fraction(2) ** sh)
     return None
